@@ -1,5 +1,6 @@
 import GoawkModel.Basic
 import GoawkModel.C13
+import GoawkModel.C13Newline
 /-! Line-protocol handler for property C13.
 
 `run <buffered 0|1> <failAt | -> <fs> <op>*`
@@ -7,6 +8,10 @@ import GoawkModel.C13
 * ops: `p:<c>` `gt:<n>:<c>` `app:<n>:<c>` `pipe:<n>:<c>` `close:<n>` `ff:<n>` `ffa` `sys:<n>` `gf:<n>` `exit:<k>` `fail`
 * commands by (symbolic) name: `sink<k>…` swallows its input, exit status k; `echo…` copies its input to stdout at EOF;
   system: `snap_<file>` looks at a file, `say_<tok>` prints `<tok>\n`, `rc<k>` exits with k
+`runx <crlf 0|1> <buffered 0|1> <failAt | -> <fs> <stmt>*` — the same with the newline-output mode and print statements:
+* `ofs:<v>` `ors:<v>` `rec:<v>` (assignments to OFS, ORS, $0; no return value, not an operation of the output model)
+* in `p:` `gt:` `app:` `pipe:` the content is `P` (bare print), `P<arg>+<arg>…` (print with arguments) or `F<s>` / `<s>`
+  (printf: one write of the formatted string); lowered by `GoawkModel.C13.lower`
 answer: `ok <ret>* ; <outcome> ; <out> ; <flush,…> ; <name=content,…> ; <cmd:input:status,…>` -/
 namespace GoawkModel.Drv.C13
 open GoawkModel GoawkModel.C13
@@ -52,6 +57,24 @@ def parseOp (s : String) : Option Op :=
   | ["fail"] => some .fail
   | _ => none
 
+def parseBody (d : Option (Redir × Name)) (c : String) : Option Stmt :=
+  match c.toList with
+  | 'P' :: [] => some (.print d [])
+  | 'P' :: rest => do pure (.print d (← ((String.ofList rest).splitOn "+").mapM fromHex))
+  | 'F' :: rest => do pure (.printf d (← fromHex (String.ofList rest)))
+  | _ => do pure (.printf d (← fromHex c))
+
+def parseStmt (s : String) : Option Stmt :=
+  match s.splitOn ":" with
+  | ["ofs", v] => do pure (.setOFS (← fromHex v))
+  | ["ors", v] => do pure (.setORS (← fromHex v))
+  | ["rec", v] => do pure (.setRec (← fromHex v))
+  | ["p", c] => parseBody none c
+  | ["gt", n, c] => do parseBody (some (.gt, ← fromHex n)) c
+  | ["app", n, c] => do parseBody (some (.app, ← fromHex n)) c
+  | ["pipe", n, c] => do parseBody (some (.pipe, ← fromHex n)) c
+  | _ => do pure (.other (← parseOp s))
+
 def showErr : Err → String
   | .writeToReader => "writeToReader" | .readFromWriter => "readFromWriter" | .stdoutWrite => "stdoutWrite" | .divZero => "divZero"
 
@@ -69,10 +92,16 @@ def showOutcome : Outcome → String
 def commaOr (l : List String) : String := if l.isEmpty then "." else String.intercalate "," l
 
 def handle (args : List String) : String :=
-  match args with
-  | "run" :: buffered :: failAt :: fs :: ops =>
-    match parseFs fs, ops.mapM parseOp with
-    | some fs, some ops =>
+  let parsed : Option (String × String × String × List Op) :=
+    match args with
+    | "run" :: buffered :: failAt :: fs :: ops => do pure (buffered, failAt, fs, ← ops.mapM parseOp)
+    | "runx" :: crlf :: buffered :: failAt :: fs :: stmts => do
+      pure (buffered, failAt, fs, lower (Fmt.init (crlf = "1")) (← stmts.mapM parseStmt))
+    | _ => none
+  match parsed with
+  | some (buffered, failAt, fs, ops) =>
+    match parseFs fs with
+    | some fs =>
       let fa : Option Nat := if failAt = "-" then none else failAt.toNat?
       let r := run beh (St.init (buffered = "1") fa fs) ops
       let s := r.2.2
@@ -80,7 +109,7 @@ def handle (args : List String) : String :=
         commaOr (s.fs.map fun p => toHex p.1 ++ "=" ++ toHex p.2),
         commaOr (s.procs.map fun p => toHex p.1 ++ ":" ++ toHex p.2.1 ++ ":" ++ toString p.2.2),
         toHex s.outLog]
-    | _, _ => "bad-request"
-  | _ => "bad-request"
+    | none => "bad-request"
+  | none => "bad-request"
 
 end GoawkModel.Drv.C13
